@@ -201,26 +201,10 @@ proof fn lemma_plan(a: Seq<Option<V>>, t: V, m: int) -> (r: (bool, int))
     }
 }
 
-// the array the closure presents: entry i is the value the closure yields at i when it succeeds (the listing
-// request may fail; then the search fails too and nothing is claimed)
-spec fn atk<F: Fn(usize) -> Result<Option<V>>>(f: F, i: int) -> Option<V> {
-    choose|o: Option<V>| #[trigger] f.ensures((i as usize,), Ok(o))
-}
-spec fn arr<F: Fn(usize) -> Result<Option<V>>>(f: F, n: int) -> Seq<Option<V>> { Seq::new(n as nat, |i: int| atk(f, i)) }
-// the closure is a function of the index whenever it succeeds, and it can succeed at every index
-spec fn functional<F: Fn(usize) -> Result<Option<V>>>(f: F, n: int) -> bool {
-    &&& forall|i: usize, o1: Option<V>, o2: Option<V>| #[trigger] f.ensures((i,), Ok(o1)) && #[trigger] f.ensures((i,), Ok(o2)) ==> o1 == o2
-    &&& forall|i: usize| i < n ==> #[trigger] can_succeed(f, i)
-}
-spec fn can_succeed<F: Fn(usize) -> Result<Option<V>>>(f: F, i: usize) -> bool {
-    exists|o: Option<V>| #[trigger] f.ensures((i,), Ok(o))
-}
-proof fn lemma_atk<F: Fn(usize) -> Result<Option<V>>>(f: F, n: int, i: usize, v: Option<V>)
-    requires functional(f, n), f.ensures((i,), Ok(v)), i < n
-    ensures arr(f, n)[i as int] == v
-{
-    let o = choose|o: Option<V>| #[trigger] f.ensures((i as int as usize,), Ok(o));
-    assert(f.ensures((i as int as usize,), Ok(o)));
+// the closure presents the array a: whenever a listing request succeeds at index i it yields a[i] (a request may
+// fail; then the search fails too and nothing is claimed)
+spec fn consistent<F: Fn(usize) -> Result<Option<V>>>(f: F, a: Seq<Option<V>>) -> bool {
+    forall|i: usize, o: Option<V>| i < a.len() && #[trigger] f.ensures((i,), Ok(o)) ==> o == a[i as int]
 }
 spec fn to_int(o: Option<usize>) -> Option<int> { match o { Some(i) => Some(i as int), None => None } }
 
